@@ -64,6 +64,11 @@ class Spec(BaseSpec):
         if is_v(v) and I.tag(v) == "ref":
             self.field_read(I, v, name)
         if is_v(v) and I.tag(v) is None:
+            if os.environ.get("PYVC_DEBUG2"):
+                print("UNK", name, str(v)[:300].replace("\n", " "))
+                print("  mv", st.model_value(v), "valid", st.valid(V.is_ref(v)), "npc", len(st.pc))
+                for p_ in st.pc[-6:]:
+                    print("   PC", str(p_)[:400].replace("\n", " "))
             t = models.split_tag(I, v, f"attr:{name}")
             if t != "ref":
                 return MISSING
@@ -259,67 +264,6 @@ def h_expected_nodes(spec):
     E.run_function(spec, "_expected_nodes", body)
 
 
-def h_finalize_run(spec):
-    """verdict = DocVerdict(view of the run): status/problems from the two lifecycle flags, missing/orphan from the
-    expected-node set, only the two synthesised timestamps of the run object may change"""
-    fn_info(spec, AGG, "TraceAggregator.finalize_run")
-    spec.loop(AGG, "TraceAggregator.finalize_run", 1, LoopSpec(
-        lambda c: z3.BoolVal(True),
-        modifies_heap=True, frame_except=lambda c: [(c.var("run"), ["start_timestamp", "end_timestamp"])]))
-
-    def body(I):
-        st = I.st
-        me, runs, launches = agg_self(I)
-        run_ci, node_ci, launch_ci = wf_state(I, runs, launches)
-        run_id = vstr(z3.String("run_id"))
-        exp = in_set(I, "expected")
-        spec._expected = exp
-        h0 = st.h.copy()
-        _, f = E.method_of(I, AGG, "TraceAggregator", "finalize_run")
-        out = E.execute(I, f, [me, run_id])
-        if out[0] != "return":
-            spec.oblige(I, "never-raises", z3.BoolVal(False))
-            return
-        res = out[1]
-        h = st.h
-        known = z3.Select(ddom(h0, runs), run_id)
-        run = z3.Select(dval(h0, runs), run_id)
-        status = fld(h, res, "status")
-        problems = st.list_sq(fld(h, res, "problems"))
-        pset = models.set_term_ax(I, problems)
-        spec.oblige(I, "unknown-run-is-invalid", z3.Implies(z3.Not(known), status == vstr("invalid")))
-        ss, se = V.b(fld(h0, run, "saw_start")), V.b(fld(h0, run, "saw_end"))
-        spec.oblige(I, "complete-iff-both-lifecycle-edges-seen", z3.Implies(known, (status == vstr("complete")) == z3.And(ss, se)))
-        spec.oblige(I, "exactly-one-edge-is-partial", z3.Implies(z3.And(known, z3.Xor(ss, se)), status == vstr("partial")))
-        spec.oblige(I, "missing-start-named-iff-not-seen", z3.Implies(known, z3.Select(pset, vstr("missing_pipeline_start")) == z3.Not(ss)))
-        spec.oblige(I, "missing-end-named-iff-not-seen", z3.Implies(known, z3.Select(pset, vstr("missing_pipeline_end")) == z3.Not(se)))
-        # node accounting against the expected-node set (contract of _expected_nodes: None or a non-empty set)
-        nodes = fld(h0, run, "nodes")
-        observed = ddom(h0, nodes)
-        expd = z3.Select(h0.sdom, V.id(exp))
-        has_exp = st.ghost.get("has_expected")
-        k = z3.Const("k", V)
-        missing = fld(h, res, "missing_nodes")
-        orphan = fld(h, res, "orphan_nodes")
-        for nm, lst, want in (("missing_nodes=sorted(expected-observed)", missing, z3.Lambda([k], z3.And(z3.Select(expd, k), z3.Not(z3.Select(observed, k))))),
-                              ("orphan_nodes=sorted(observed-expected)", orphan, z3.Lambda([k], z3.And(z3.Select(observed, k), z3.Not(z3.Select(expd, k)))))):
-            arr = z3.simplify(z3.Select(h.larr, V.id(lst)))
-            n = z3.Select(h.llen, V.id(lst))
-            if has_exp is True:
-                if z3.is_app(arr) and arr.decl().eq(SortedArr):
-                    spec.oblige(I, nm, z3.Implies(known, z3.ForAll([k], z3.Select(arr.arg(0), k) == z3.Select(want, k))))
-                else:
-                    spec.oblige(I, nm, z3.Implies(known, arr == SortedArr(want)))
-            elif has_exp is False:
-                spec.oblige(I, nm.split("=")[0] + "=[]-without-expected-set", z3.Implies(known, n == 0))
-        spec.oblige(I, "only-synthesised-timestamps-of-the-run-change",
-                    z3.Implies(known, frame_eq(h0, h, 0, [(run, ["start_timestamp", "end_timestamp"])])))
-        spec.oblige(I, "lifecycle-flags-unchanged(idempotence)", z3.Implies(known, z3.And(
-            fld(h, run, "saw_start") == fld(h0, run, "saw_start"), fld(h, run, "saw_end") == fld(h0, run, "saw_end"),
-            fld(h, run, "nodes") == fld(h0, run, "nodes"), fld(h, run, "pipeline_spec_canonical") == fld(h0, run, "pipeline_spec_canonical"))))
-    E.run_function(spec, "TraceAggregator.finalize_run", body)
-
-
 def concrete_state(I):
     """aggregator whose table holds one typed run object under `run_id` (or not), with a symbolic node table"""
     st = I.st
@@ -401,8 +345,236 @@ def h_finalize_run2(spec):
                     spec.oblige(I, nm, arr == SortedArr(want))
             elif has_exp is False:
                 spec.oblige(I, nm.split("=")[0] + "=[]-without-expected-set", n == 0)
-        spec.oblige(I, "only-synthesised-timestamps-of-the-run-change", frame_eq(h0, h, 0, [(run, ["start_timestamp", "end_timestamp"])]))
+        spec.oblige(I, "verdict-relevant-state-unchanged(finalising-twice-gives-the-same-verdict)", z3.And(
+            [fld(h, run, n_) == fld(h0, run, n_) for n_ in ("saw_start", "saw_end", "nodes", "pipeline_spec_canonical", "run_id")] +
+            [ddom(h, nodes) == ddom(h0, nodes), dval(h, nodes) == dval(h0, nodes), ddom(h, runs) == ddom(h0, runs), dval(h, runs) == dval(h0, runs)]))
     E.run_function(spec, "TraceAggregator.finalize_run", body)
+
+
+def typed_launch(I, launches, key):
+    st = I.st
+    launch_ci = cls_of(I, MODELS, "LaunchAggregate")
+    pipes = in_set(I, "pipelines")
+    vals = {"run_space_launch_id": in_val(I, "l_id"), "run_space_attempt": in_val(I, "l_att"), "run_space_spec_id": in_val(I, "l_spec"),
+            "run_space_inputs_id": in_val(I, "l_inp"), "planned_run_count": in_val(I, "l_planned"), "input_fingerprints": in_val(I, "l_fp"),
+            "saw_start": vbool(z3.Bool("l_saw_start")), "saw_end": vbool(z3.Bool("l_saw_end")), "pipelines": pipes}
+    return in_inst(I, "launch", launch_ci, vals), pipes
+
+
+def record_pre(I, rec, h0):
+    """producer precondition on a record: identifiers / timestamps are strings or absent, timing a dict or absent"""
+    st = I.st
+    for key in ("run_id", "run_space_launch_id", "timestamp", "status"):
+        v = getv(h0, rec, key)
+        st.assume(z3.Or(v == NONE, V.is_str(v)))
+    tim = getv(h0, rec, "timing")
+    st.assume(z3.Or(tim == NONE, z3.And(V.is_ref(tim), V.id(tim) <= 0, z3.Select(h0.kind, V.id(tim)) == K_DICT)))
+    for key in ("started_at", "finished_at"):
+        tv = z3.If(z3.Select(ddom(h0, tim), vstr(key)), z3.Select(dval(h0, tim), vstr(key)), NONE)
+        st.assume(z3.Implies(tim != NONE, z3.Or(tv == NONE, V.is_str(tv))))
+    for key in ("run_space_attempt", "seq", "error", "pipeline_id", "pipeline_spec_canonical", "meta"):
+        v = getv(h0, rec, key)
+        st.assume(z3.Implies(V.is_ref(v), V.id(v) <= 0))
+    att = getv(h0, rec, "run_space_attempt")
+    st.assume(z3.Or(att == NONE, V.is_int(att)))
+
+
+def h_ingest_lifecycle2(spec):
+    """pipeline_start / pipeline_end on a state whose table holds a typed run under the record's run id (or not)"""
+    for q in ("_ingest_pipeline_start", "_ingest_pipeline_end"):
+        fn_info(spec, AGG, "TraceAggregator." + q)
+
+    def mk(meth, flag):
+        def body(I):
+            st = I.st
+            me, runs, run, nodes = concrete_state(I)
+            launches = fld(st.h, me, "_launches")
+            rec = record_in(I)
+            h_in = st.h
+            record_pre(I, rec, h_in)
+            rid = getv(h_in, rec, "run_id")
+            known_case = st.choose(2, "run known?") == 1
+            if known_case:
+                st.assume(z3.And(V.is_str(rid), z3.Select(ddom(st.h, runs), rid), z3.Select(dval(st.h, runs), rid) == run,
+                                 fld(st.h, run, "run_id") == rid))
+            else:
+                st.assume(z3.Not(z3.Select(ddom(st.h, runs), rid)))
+            lid, att = getv(h_in, rec, "run_space_launch_id"), getv(h_in, rec, "run_space_attempt")
+            lkey = vtup([lid, att])
+            launch, pipes = typed_launch(I, launches, lkey)
+            lknown = st.choose(2, "launch known?") == 1
+            if lknown:
+                st.assume(z3.And(z3.Select(ddom(st.h, launches), lkey), z3.Select(dval(st.h, launches), lkey) == launch))
+            else:
+                st.assume(z3.Not(z3.Select(ddom(st.h, launches), lkey)))
+            h0 = st.h.copy()
+            _, f = E.method_of(I, AGG, "TraceAggregator", meth)
+            out = E.execute(I, f, [me, rec])
+            if out[0] != "return":
+                spec.oblige(I, "never-raises-on-producer-records", z3.BoolVal(False))
+                return
+            h = st.h
+            usable = z3.And(V.is_str(rid), z3.Length(V.s(rid)) > 0)
+            obj = z3.Select(dval(h, runs), rid)
+            spec.oblige(I, "record-without-run-id-is-ignored", z3.Implies(z3.Not(usable), frame_eq(h0, h, 0)))
+            spec.oblige(I, "run-known-afterwards", z3.Implies(usable, z3.Select(ddom(h, runs), rid)))
+            if known_case:
+                spec.oblige(I, "existing-aggregate-is-reused", z3.Implies(usable, obj == run))
+            other = "saw_end" if flag == "saw_start" else "saw_start"
+            spec.oblige(I, f"{flag}-set", z3.Implies(usable, fld(h, obj, flag) == vbool(True)))
+            spec.oblige(I, f"{other}-kept", z3.Implies(usable, fld(h, obj, other) == (fld(h0, run, other) if known_case else vbool(False))))
+            if known_case:
+                spec.oblige(I, "node-table-kept", z3.Implies(usable, z3.And(fld(h, obj, "nodes") == nodes, ddom(h, nodes) == ddom(h0, nodes),
+                                                                            dval(h, nodes) == dval(h0, nodes))))
+            k = z3.Const("k", V)
+            spec.oblige(I, "runs-table-changes-only-at-run-id", z3.ForAll([k], z3.Implies(k != rid, z3.And(
+                z3.Select(ddom(h, runs), k) == z3.Select(ddom(h0, runs), k), z3.Select(dval(h, runs), k) == z3.Select(dval(h0, runs), k)))))
+            allowed = [runs, launches, run, launch, pipes]
+            spec.oblige(I, "frame:only-the-addressed-run-launch-and-tables-change", frame_eq(h0, h, 0, allowed))
+            if meth == "_ingest_pipeline_start":
+                both = z3.And(usable, lid != NONE, att != NONE)
+                lobj = z3.Select(dval(h, launches), lkey)
+                lp = fld(h, lobj, "pipelines")
+                spec.oblige(I, "run-linked-to-its-launch", z3.Implies(both, z3.And(
+                    z3.Select(ddom(h, launches), lkey), z3.Select(z3.Select(h.sdom, V.id(lp)), rid))))
+                if lknown:
+                    spec.oblige(I, "launch-flags-kept", z3.Implies(both, z3.And(lobj == launch,
+                                fld(h, launch, "saw_start") == fld(h0, launch, "saw_start"), fld(h, launch, "saw_end") == fld(h0, launch, "saw_end"))))
+                    spec.oblige(I, "other-runs-of-the-launch-kept", z3.ForAll([k], z3.Implies(z3.Select(z3.Select(h0.sdom, V.id(pipes)), k),
+                                                                                              z3.Select(z3.Select(h.sdom, V.id(pipes)), k))))
+        return body
+    E.run_function(spec, "_ingest_pipeline_start", mk("_ingest_pipeline_start", "saw_start"))
+    E.run_function(spec, "_ingest_pipeline_end", mk("_ingest_pipeline_end", "saw_end"))
+
+
+def typed_node(I):
+    node_ci = cls_of(I, MODELS, "NodeAggregate")
+    counts = in_dict(I, "counts")
+    ts = lambda nm: z3.Const(nm, V)
+    for nm in ("n_first", "n_last", "n_status"):
+        I.st.assume(z3.Or(z3.Const(nm, V) == NONE, V.is_str(z3.Const(nm, V))))
+    vals = {"node_id": in_val(I, "n_id"), "first_timestamp": ts("n_first"), "last_timestamp": ts("n_last"), "last_seq": in_val(I, "n_seq"),
+            "last_status": ts("n_status"), "counts": counts, "timing": in_val(I, "n_timing"), "last_error": in_val(I, "n_err")}
+    return in_inst(I, "node", node_ci, vals), counts
+
+
+def h_ingest_ser2(spec):
+    """SER: the addressed node aggregate gets the record's status (created if absent); run flags and all other nodes kept"""
+    fn_info(spec, AGG, "TraceAggregator._ingest_ser")
+
+    def body(I):
+        st = I.st
+        me, runs, run, nodes = concrete_state(I)
+        rec = record_in(I)
+        ident = in_dict(I, "identity")
+        h_in = st.h
+        st.assume(z3.Select(ddom(h_in, rec), vstr("identity")))
+        st.assume(z3.Select(dval(h_in, rec), vstr("identity")) == ident)
+        record_pre(I, rec, h_in)
+        rid, nid = getv(h_in, ident, "run_id"), getv(h_in, ident, "node_id")
+        for v in (rid, nid):
+            st.assume(z3.Or(v == NONE, V.is_str(v)))
+        node, counts = typed_node(I)
+        # counts hold integers
+        hc = st.h.copy()
+        st.dict_instantiators.append(lambda did, key: z3.Implies(
+            z3.And(did == V.id(counts), z3.Select(z3.Select(hc.ddom, did), key)), V.is_int(z3.Select(z3.Select(hc.dval, did), key))))
+        known_case = st.choose(2, "run known?") == 1
+        node_known = False
+        if known_case:
+            st.assume(z3.And(V.is_str(rid), z3.Select(ddom(st.h, runs), rid), z3.Select(dval(st.h, runs), rid) == run))
+            node_known = st.choose(2, "node known?") == 1
+            if node_known:
+                st.assume(z3.And(z3.Select(ddom(st.h, nodes), nid), z3.Select(dval(st.h, nodes), nid) == node))
+            else:
+                st.assume(z3.Not(z3.Select(ddom(st.h, nodes), nid)))
+        else:
+            st.assume(z3.Not(z3.Select(ddom(st.h, runs), rid)))
+        h0 = st.h.copy()
+        _, f = E.method_of(I, AGG, "TraceAggregator", "_ingest_ser")
+        out = E.execute(I, f, [me, rec])
+        if out[0] != "return":
+            spec.oblige(I, "never-raises-on-producer-records", z3.BoolVal(False))
+            return
+        h = st.h
+        usable = z3.And(V.is_str(rid), z3.Length(V.s(rid)) > 0, V.is_str(nid), z3.Length(V.s(nid)) > 0)
+        obj = z3.Select(dval(h, runs), rid)
+        nd = fld(h, obj, "nodes")
+        status = getv(h0, rec, "status")
+        want_status = z3.If(z3.And(V.is_str(status), z3.Length(V.s(status)) > 0), status, vstr("unknown"))
+        spec.oblige(I, "record-without-ids-is-ignored", z3.Implies(z3.Not(usable), frame_eq(h0, h, 0)))
+        spec.oblige(I, "run-known-afterwards", z3.Implies(usable, z3.Select(ddom(h, runs), rid)))
+        if known_case:
+            spec.oblige(I, "existing-run-reused-flags-kept", z3.Implies(usable, z3.And(
+                obj == run, fld(h, run, "saw_start") == fld(h0, run, "saw_start"), fld(h, run, "saw_end") == fld(h0, run, "saw_end"), nd == nodes)))
+        else:
+            spec.oblige(I, "new-run-has-no-lifecycle-edge", z3.Implies(usable, z3.And(
+                fld(h, obj, "saw_start") == vbool(False), fld(h, obj, "saw_end") == vbool(False))))
+        spec.oblige(I, "node-observed-afterwards", z3.Implies(usable, z3.Select(ddom(h, nd), nid)))
+        nobj = z3.Select(dval(h, nd), nid)
+        spec.oblige(I, "last_status=record-status-or-unknown", z3.Implies(usable, fld(h, nobj, "last_status") == want_status))
+        k = z3.Const("k", V)
+        if known_case:
+            spec.oblige(I, "node-table-changes-only-at-node-id", z3.Implies(usable, z3.ForAll([k], z3.Implies(k != nid, z3.And(
+                z3.Select(ddom(h, nodes), k) == z3.Select(ddom(h0, nodes), k), z3.Select(dval(h, nodes), k) == z3.Select(dval(h0, nodes), k))))))
+        if node_known:
+            spec.oblige(I, "existing-node-aggregate-reused", z3.Implies(usable, nobj == node))
+        spec.oblige(I, "runs-table-changes-only-at-run-id", z3.ForAll([k], z3.Implies(k != rid, z3.And(
+            z3.Select(ddom(h, runs), k) == z3.Select(ddom(h0, runs), k), z3.Select(dval(h, runs), k) == z3.Select(dval(h0, runs), k)))))
+        spec.oblige(I, "frame:only-the-addressed-node-its-counts-and-the-two-tables-change", frame_eq(h0, h, 0, [runs, nodes, node, counts]))
+    E.run_function(spec, "_ingest_ser", body)
+
+
+def h_ingest_rs2(spec):
+    """run_space_start / run_space_end: the addressed launch gets the flag (created if absent), its runs are kept"""
+    for q in ("_ingest_run_space_start", "_ingest_run_space_end"):
+        fn_info(spec, AGG, "TraceAggregator." + q)
+
+    def mk(meth, flag):
+        def body(I):
+            st = I.st
+            me, runs, launches = agg_self(I)
+            st.h_input = st.h.copy()
+            rec = record_in(I)
+            h_in = st.h
+            record_pre(I, rec, h_in)
+            for key in ("run_space_spec_id", "run_space_inputs_id", "run_space_planned_run_count", "run_space_input_fingerprints"):
+                v = getv(h_in, rec, key)
+                st.assume(z3.Implies(V.is_ref(v), V.id(v) <= 0))
+            lid, att = getv(h_in, rec, "run_space_launch_id"), getv(h_in, rec, "run_space_attempt")
+            lkey = vtup([lid, att])
+            launch, pipes = typed_launch(I, launches, lkey)
+            lknown = st.choose(2, "launch known?") == 1
+            if lknown:
+                st.assume(z3.And(z3.Select(ddom(st.h, launches), lkey), z3.Select(dval(st.h, launches), lkey) == launch))
+            else:
+                st.assume(z3.Not(z3.Select(ddom(st.h, launches), lkey)))
+            h0 = st.h.copy()
+            _, f = E.method_of(I, AGG, "TraceAggregator", meth)
+            out = E.execute(I, f, [me, rec])
+            if out[0] != "return":
+                spec.oblige(I, "never-raises-on-producer-records", z3.BoolVal(False))
+                return
+            h = st.h
+            usable = z3.And(V.is_str(lid), z3.Length(V.s(lid)) > 0, att != NONE)
+            lobj = z3.Select(dval(h, launches), lkey)
+            spec.oblige(I, "record-without-launch-key-is-ignored", z3.Implies(z3.Not(usable), frame_eq(h0, h, 0)))
+            spec.oblige(I, "launch-known-afterwards", z3.Implies(usable, z3.Select(ddom(h, launches), lkey)))
+            spec.oblige(I, f"{flag}-set", z3.Implies(usable, fld(h, lobj, flag) == vbool(True)))
+            other = "saw_end" if flag == "saw_start" else "saw_start"
+            if lknown:
+                spec.oblige(I, "existing-launch-reused-runs-kept", z3.Implies(usable, z3.And(
+                    lobj == launch, fld(h, launch, other) == fld(h0, launch, other), fld(h, launch, "pipelines") == pipes,
+                    z3.Select(h.sdom, V.id(pipes)) == z3.Select(h0.sdom, V.id(pipes)))))
+            else:
+                spec.oblige(I, "new-launch-has-only-this-edge", z3.Implies(usable, fld(h, lobj, other) == vbool(False)))
+            k = z3.Const("k", V)
+            spec.oblige(I, "launch-table-changes-only-at-the-key", z3.ForAll([k], z3.Implies(k != lkey, z3.And(
+                z3.Select(ddom(h, launches), k) == z3.Select(ddom(h0, launches), k), z3.Select(dval(h, launches), k) == z3.Select(dval(h0, launches), k)))))
+            spec.oblige(I, "frame:only-the-addressed-launch-and-the-launch-table-change", frame_eq(h0, h, 0, [launches, launch]))
+        return body
+    E.run_function(spec, "_ingest_run_space_start", mk("_ingest_run_space_start", "saw_start"))
+    E.run_function(spec, "_ingest_run_space_end", mk("_ingest_run_space_end", "saw_end"))
 
 
 class FinalizeSpec(Spec):
@@ -429,135 +601,6 @@ def record_in(I):
 
 def getv(h, d, key):
     return z3.If(z3.Select(ddom(h, d), vstr(key)), z3.Select(dval(h, d), vstr(key)), NONE)
-
-
-def h_ingest_lifecycle(spec):
-    """pipeline_start / pipeline_end: the addressed run gets the flag, is created if absent, nothing else changes"""
-    for q in ("_ingest_pipeline_start", "_ingest_pipeline_end", "_ingest_run_space_start", "_ingest_run_space_end"):
-        fn_info(spec, AGG, "TraceAggregator." + q)
-
-    def mk(meth, flag):
-        def body(I):
-            st = I.st
-            me, runs, launches = agg_self(I)
-            run_ci, node_ci, launch_ci = wf_state(I, runs, launches)
-            rec = record_in(I)
-            h0 = st.h.copy()
-            n0 = st.nalloc
-            # producer precondition on the record: identifiers are strings or absent, timestamps strings or absent
-            for key in ("run_id", "run_space_launch_id", "timestamp"):
-                v = getv(h0, rec, key)
-                st.assume(z3.Or(v == NONE, V.is_str(v)))
-            tim = getv(h0, rec, "timing")
-            st.assume(z3.Or(tim == NONE, z3.And(V.is_ref(tim), V.id(tim) <= 0, z3.Select(h0.kind, V.id(tim)) == K_DICT)))
-            for key in ("started_at", "finished_at"):
-                tv = z3.If(z3.Select(ddom(h0, tim), vstr(key)), z3.Select(dval(h0, tim), vstr(key)), NONE)
-                st.assume(z3.Implies(tim != NONE, z3.Or(tv == NONE, V.is_str(tv))))
-            _, f = E.method_of(I, AGG, "TraceAggregator", meth)
-            out = E.execute(I, f, [me, rec])
-            if out[0] != "return":
-                spec.oblige(I, "never-raises-on-producer-records", z3.BoolVal(False))
-                return
-            h = st.h
-            run_id = getv(h0, rec, "run_id")
-            usable = z3.And(V.is_str(run_id), z3.Length(V.s(run_id)) > 0)
-            existed = z3.Select(ddom(h0, runs), run_id)
-            obj0 = z3.Select(dval(h0, runs), run_id)
-            obj = z3.Select(dval(h, runs), run_id)
-            spec.oblige(I, "record-without-run-id-is-ignored", z3.Implies(z3.Not(usable), frame_eq(h0, h, 0)))
-            spec.oblige(I, "run-known-afterwards", z3.Implies(usable, z3.Select(ddom(h, runs), run_id)))
-            spec.oblige(I, "existing-aggregate-is-reused", z3.Implies(z3.And(usable, existed), obj == obj0))
-            spec.oblige(I, f"{flag}-set", z3.Implies(usable, fld(h, obj, flag) == vbool(True)))
-            other = "saw_end" if flag == "saw_start" else "saw_start"
-            spec.oblige(I, f"{other}-kept", z3.Implies(usable, fld(h, obj, other) == z3.If(existed, fld(h0, obj0, other), vbool(False))))
-            spec.oblige(I, "node-table-kept", z3.Implies(z3.And(usable, existed), fld(h, obj, "nodes") == fld(h0, obj0, "nodes")))
-            k = z3.Const("k", V)
-            spec.oblige(I, "runs-table-changes-only-at-run-id", z3.ForAll([k], z3.Implies(k != run_id, z3.And(
-                z3.Select(ddom(h, runs), k) == z3.Select(ddom(h0, runs), k), z3.Select(dval(h, runs), k) == z3.Select(dval(h0, runs), k)))))
-            # frame: apart from the runs table, the addressed run object, the launches table, the addressed launch and
-            # its pipelines set, no pre-existing object changes
-            lkey = vtup([getv(h0, rec, "run_space_launch_id"), vint(z3.Int("att!any"))])
-            allowed = [runs, launches, z3.If(existed, obj0, vref(0))]
-            if meth == "_ingest_pipeline_start":
-                att = st.ghost.get("__attempt__")
-                r = z3.Int("r!fr")
-                # every pre-existing object other than: runs/launches tables, the addressed run, launch aggregates and pipelines sets
-                is_launch_obj = z3.And(z3.Select(h0.kind, r) == K_INST, z3.Select(h0.cls, r) == launch_ci.cid)
-                is_set = z3.Select(h0.kind, r) == K_SET
-                conj = []
-                for (n1, a), (n2, b) in zip(h0.components(), h.components()):
-                    if not a.eq(b):
-                        conj.append(z3.Select(a, r) == z3.Select(b, r))
-                names = set(h0.fld) | set(h.fld)
-                frame = z3.ForAll([r], z3.Implies(z3.And(r <= 0, r != V.id(runs), r != V.id(launches),
-                                                         z3.Or(z3.Not(existed), r != V.id(obj0)),
-                                                         z3.Not(is_launch_obj), z3.Not(is_set)), z3.And(conj))) if conj else z3.BoolVal(True)
-                spec.oblige(I, "frame:nothing-else-changes", frame)
-            else:
-                spec.oblige(I, "frame:nothing-else-changes", frame_eq(h0, h, 0, allowed))
-        return body
-    E.run_function(spec, "_ingest_pipeline_start", mk("_ingest_pipeline_start", "saw_start"))
-    E.run_function(spec, "_ingest_pipeline_end", mk("_ingest_pipeline_end", "saw_end"))
-
-
-def h_ingest_ser(spec):
-    fn_info(spec, AGG, "TraceAggregator._ingest_ser")
-
-    def body(I):
-        st = I.st
-        me, runs, launches = agg_self(I)
-        run_ci, node_ci, launch_ci = wf_state(I, runs, launches)
-        rec = record_in(I)
-        ident = in_dict(I, "identity")
-        h0 = st.h.copy()
-        st.assume(z3.Select(ddom(h0, rec), vstr("identity")))
-        st.assume(z3.Select(dval(h0, rec), vstr("identity")) == ident)
-        run_id, node_id = getv(h0, ident, "run_id"), getv(h0, ident, "node_id")
-        for v in (run_id, node_id, getv(h0, rec, "timestamp"), getv(h0, rec, "status")):
-            st.assume(z3.Or(v == NONE, V.is_str(v)))
-        tim = getv(h0, rec, "timing")
-        st.assume(z3.Or(tim == NONE, z3.And(V.is_ref(tim), V.id(tim) <= 0, z3.Select(h0.kind, V.id(tim)) == K_DICT)))
-        tv = z3.If(z3.Select(ddom(h0, tim), vstr("started_at")), z3.Select(dval(h0, tim), vstr("started_at")), NONE)
-        st.assume(z3.Implies(tim != NONE, z3.Or(tv == NONE, V.is_str(tv))))
-        seq = getv(h0, rec, "seq")
-        st.assume(z3.Implies(V.is_ref(seq), V.id(seq) <= 0))
-        err = getv(h0, rec, "error")
-        st.assume(z3.Implies(V.is_ref(err), V.id(err) <= 0))
-        _, f = E.method_of(I, AGG, "TraceAggregator", "_ingest_ser")
-        out = E.execute(I, f, [me, rec])
-        if out[0] != "return":
-            spec.oblige(I, "never-raises-on-producer-records", z3.BoolVal(False))
-            return
-        h = st.h
-        usable = z3.And(V.is_str(run_id), z3.Length(V.s(run_id)) > 0, V.is_str(node_id), z3.Length(V.s(node_id)) > 0)
-        existed = z3.Select(ddom(h0, runs), run_id)
-        obj0 = z3.Select(dval(h0, runs), run_id)
-        obj = z3.Select(dval(h, runs), run_id)
-        nd = fld(h, obj, "nodes")
-        status = getv(h0, rec, "status")
-        want_status = z3.If(z3.And(V.is_str(status), z3.Length(V.s(status)) > 0), status, vstr("unknown"))
-        spec.oblige(I, "record-without-ids-is-ignored", z3.Implies(z3.Not(usable), frame_eq(h0, h, 0)))
-        spec.oblige(I, "run-known-afterwards", z3.Implies(usable, z3.Select(ddom(h, runs), run_id)))
-        spec.oblige(I, "existing-run-reused-flags-kept", z3.Implies(z3.And(usable, existed), z3.And(
-            obj == obj0, fld(h, obj, "saw_start") == fld(h0, obj0, "saw_start"), fld(h, obj, "saw_end") == fld(h0, obj0, "saw_end"),
-            nd == fld(h0, obj0, "nodes"))))
-        spec.oblige(I, "new-run-has-no-lifecycle-edge", z3.Implies(z3.And(usable, z3.Not(existed)), z3.And(
-            fld(h, obj, "saw_start") == vbool(False), fld(h, obj, "saw_end") == vbool(False))))
-        spec.oblige(I, "node-observed-afterwards", z3.Implies(usable, z3.Select(ddom(h, nd), node_id)))
-        nobj = z3.Select(dval(h, nd), node_id)
-        spec.oblige(I, "last_status=record-status-or-unknown", z3.Implies(usable, fld(h, nobj, "last_status") == want_status))
-        k = z3.Const("k", V)
-        nd0 = fld(h0, obj0, "nodes")
-        spec.oblige(I, "node-table-changes-only-at-node-id", z3.Implies(z3.And(usable, existed), z3.ForAll([k], z3.Implies(k != node_id, z3.And(
-            z3.Select(ddom(h, nd), k) == z3.Select(ddom(h0, nd0), k), z3.Select(dval(h, nd), k) == z3.Select(dval(h0, nd0), k))))))
-        spec.oblige(I, "runs-table-changes-only-at-run-id", z3.ForAll([k], z3.Implies(k != run_id, z3.And(
-            z3.Select(ddom(h, runs), k) == z3.Select(ddom(h0, runs), k), z3.Select(dval(h, runs), k) == z3.Select(dval(h0, runs), k)))))
-        node0 = z3.Select(dval(h0, nd0), node_id)
-        node_existed = z3.And(existed, z3.Select(ddom(h0, nd0), node_id))
-        allowed = [runs, z3.If(existed, nd0, vref(0)), z3.If(node_existed, node0, vref(0)),
-                   z3.If(node_existed, fld(h0, node0, "counts"), vref(0))]
-        spec.oblige(I, "frame:only-the-addressed-node-its-counts-and-the-two-tables-change", frame_eq(h0, h, 0, allowed))
-    E.run_function(spec, "_ingest_ser", body)
 
 
 def h_ingest_dispatch(spec):
@@ -639,9 +682,9 @@ def h_commute(spec):
     E.run_function(spec, "view-lemmas", body)
 
 
-TASKS = [h_coerce_int, h_expected_nodes, h_ingest_dispatch, h_commute]
-HEAVY = [h_finalize_run2, h_finalize_run, h_ingest_lifecycle, h_ingest_ser]   # not yet tractable (path explosion): not run, not claimed
-FACTORIES = {"h_finalize_run": FinalizeSpec, "h_finalize_run2": FinalizeSpec, "h_ingest_dispatch": DispatchSpec}
+TASKS = [h_coerce_int, h_expected_nodes, h_ingest_dispatch, h_commute, h_finalize_run2, h_ingest_lifecycle2, h_ingest_ser2, h_ingest_rs2]
+HEAVY = []
+FACTORIES = {"h_finalize_run2": FinalizeSpec, "h_ingest_dispatch": DispatchSpec}
 
 
 def factory():
